@@ -365,26 +365,37 @@ func AddCustomDirectives(r *hx.Rng, s *gq.SchemaDesc) {
 	if !r.Chance(2, 3) {
 		return
 	}
-	locs := []string{"QUERY", "MUTATION", "FIELD", "FRAGMENT_DEFINITION", "FRAGMENT_SPREAD", "INLINE_FRAGMENT"}
+	locs := []string{"QUERY", "MUTATION", "SUBSCRIPTION", "FIELD", "FRAGMENT_DEFINITION", "FRAGMENT_SPREAD", "INLINE_FRAGMENT"}
+	typeSystemLocs := []string{"SCHEMA", "SCALAR", "OBJECT", "FIELD_DEFINITION", "ARGUMENT_DEFINITION", "INTERFACE", "UNION",
+		"ENUM", "ENUM_VALUE", "INPUT_OBJECT", "INPUT_FIELD_DEFINITION"}
 	argTypes := []string{"Int", "String!", "Boolean", "[Int!]", "Float", "ID!"}
 	for _, t := range s.Types {
 		if t.Kind == "ENUM" || t.Kind == "INPUT_OBJECT" {
 			argTypes = append(argTypes, t.Name)
 		}
 	}
-	n := r.Range(1, 3)
+	n := r.Range(1, 4)
 	for i := 0; i < n; i++ {
 		d := gq.DirectiveDesc{Name: fmt.Sprintf("d%d", i)}
-		for _, l := range locs {
-			if r.Chance(1, 3) {
-				d.Locations = append(d.Locations, l)
-			}
-		}
-		if len(d.Locations) == 0 {
+		switch r.Intn(4) {
+		case 0:
+			// exactly one executable location: every location gets directives that are allowed there and nowhere else
 			d.Locations = []string{r.Pick(locs)}
-		}
-		if r.Chance(1, 4) {
-			d.Locations = append(d.Locations, r.Pick([]string{"FIELD_DEFINITION", "OBJECT", "ENUM_VALUE"}))
+		case 1:
+			// only type-system locations: allowed nowhere in an executable document
+			d.Locations = []string{r.Pick(typeSystemLocs)}
+		default:
+			for _, l := range locs {
+				if r.Chance(1, 3) {
+					d.Locations = append(d.Locations, l)
+				}
+			}
+			if len(d.Locations) == 0 {
+				d.Locations = []string{r.Pick(locs)}
+			}
+			if r.Chance(1, 4) {
+				d.Locations = append(d.Locations, r.Pick(typeSystemLocs))
+			}
 		}
 		na := r.Intn(3)
 		for j := 0; j < na; j++ {
@@ -392,6 +403,27 @@ func AddCustomDirectives(r *hx.Rng, s *gq.SchemaDesc) {
 		}
 		s.Directives = append(s.Directives, d)
 	}
+}
+
+// AddSubscriptionRoot gives the schema a subscription root type `S` (half of the time): a few fields of leaf and
+// composite types taken from the query root, so that `subscription` operations with directives, variables and
+// sub-selections can be generated (gen.ValidDocOpts.Subscriptions).
+func AddSubscriptionRoot(r *hx.Rng, s *gq.SchemaDesc) {
+	if s.Subscription != nil || s.Type("S") != nil || !r.Chance(1, 2) {
+		return
+	}
+	q := s.Type(s.Query)
+	td := gq.TypeDesc{Kind: "OBJECT", Name: "S"}
+	n := r.Range(1, 3)
+	for i := 0; i < n && len(q.Fields) > 0; i++ {
+		f := q.Fields[r.Intn(len(q.Fields))]
+		f.Name = fmt.Sprintf("s%d", i)
+		td.Fields = append(td.Fields, f)
+	}
+	td.Fields = append(td.Fields, gq.FieldDesc{Name: "tick", Type: "Int"})
+	s.Types = append(s.Types, td)
+	name := "S"
+	s.Subscription = &name
 }
 
 // AddDisjointAbstract adds an object OX, an interface IX implemented by OX alone and a union UX = OX, reachable
@@ -461,6 +493,9 @@ type ValidDocOpts struct {
 	NoVariables                 bool
 	NoFragments                 bool
 	SingleOperation             bool
+	// Subscriptions: also generate `subscription` operations when the schema has a subscription root (opt-in: the
+	// executor harnesses drive graphql.Do, which does not run subscriptions like queries)
+	Subscriptions bool
 }
 
 type ValidMeta struct {
@@ -977,6 +1012,9 @@ func (g *vgen) document() *VDoc {
 		if g.v.D.Mutation != nil && r.Chance(1, 4) {
 			o.Kind, o.Root = "mutation", *g.v.D.Mutation
 			g.feat("mutation")
+		} else if g.o.Subscriptions && g.v.D.Subscription != nil && r.Chance(1, 3) {
+			o.Kind, o.Root = "subscription", *g.v.D.Subscription
+			g.feat("subscription")
 		}
 		if nOps > 1 || r.Chance(1, 2) {
 			o.Name = fmt.Sprintf("Op%d", i)
